@@ -94,7 +94,8 @@ let handle toks = match toks with
        let pos = zs pos and cnt = zs cnt in
        let shape = !m_arr.a_shape in
        let model = show_res bool01 (position_and_extent_in_data beh shape pos cnt) in
-       let spec = if OLst.length pos = OLst.length cnt then "OK " ^ bool01 (spec_in_data shape pos cnt) else "ANY" in
+       let spec = if OLst.length pos = OLst.length cnt && not (OLst.mem Z0 cnt)
+         then "OK " ^ bool01 (spec_in_data shape pos cnt) else "ANY" in
        model ^ " ## " ^ spec
      | _ -> failwith "bad indata")
   | "view" :: rest ->
